@@ -155,6 +155,10 @@ def kinds_agree(pk, ck, pairs):
 def fptr_signature_py(db, e):
     """CFUNCTYPE(ret, a1, ...) -> [kinds]"""
     out = []
+    if isinstance(e, ast.Name) and e.id in getattr(db, 'alias_exprs', {}):
+        e = db.alias_exprs[e.id]
+    if not isinstance(e, ast.Call):
+        raise AnalysisError('function pointer type %s is not a CFUNCTYPE(...) call or a module-level name for one' % ast.unparse(e))
     for a in e.args:
         if isinstance(a, ast.Constant) and a.value is None:
             out.append('void')
